@@ -20,6 +20,7 @@ let S = codata | .fst : Ret Int64 | .snd : Int64 -> Ret Int64 end in
 let P = codata | .run : OS | .get : Ret B end in
 let B1 = data | +T : Unit end in
 let S1 = codata | .fst : Ret Int64 end in
+let S3 = codata | .go : Int64 -> Int64 -> Int64 -> Ret Int64 end in
 "#;
 
 #[derive(Clone, Debug)]
@@ -48,6 +49,7 @@ fn co_arms(d: &str) -> Vec<(&'static str, Value)> {
         ],
         | "P" => vec![("run", json!({"t":"os"})), ("get", json!({"t":"ret","a":{"t":"data","n":"B"}}))],
         | "S1" => vec![("fst", json!({"t":"ret","a":{"t":"int"}}))],
+        | "S3" => vec![("go", json!({"t":"fn","a":{"t":"int"},"c":{"t":"fn","a":{"t":"int"},"c":{"t":"fn","a":{"t":"int"},"c":{"t":"ret","a":{"t":"int"}}}}}))],
         | _ => vec![],
     }
 }
@@ -64,7 +66,7 @@ pub fn arity(tok: &Value) -> usize {
     match k.as_str() {
         | "var" | "int" | "unit" | "str" | "tyterm" | "import" => 0,
         | "thunk" | "ret" | "lam" | "force" | "exit" | "ctor" | "dtor" | "fix" | "i2s" | "vlam" => 1,
-        | "do" | "app" | "let" | "arith" | "pair" | "matchP" | "wl" | "sapp" | "vapp" => 2,
+        | "do" | "app" | "let" | "arith" | "pair" | "matchP" | "wl" | "sapp" | "vapp" | "vlet" => 2,
         | "br" => 4,
         | "match" => 1 + data_arms(&s(tok, "d")).len() - if n(tok, "skip") == 0 { 0 } else { 1 },
         | "comatch" => co_arms(&s(tok, "d")).len() - if n(tok, "skip") == 0 { 0 } else { 1 },
@@ -180,7 +182,7 @@ impl Renderer {
             | "pair" => node.kids.iter().all(Self::synth),
             | "lam" | "fix" | "vlam" => Self::synth(&node.kids[0]),
             | "vapp" => Self::synth(&node.kids[0]),
-            | "do" | "let" => Self::synth(&node.kids[1]),
+            | "do" | "let" | "vlet" => Self::synth(&node.kids[1]),
             | "app" => Self::synth(&node.kids[0]),
             | "arith" | "i2s" | "sapp" | "exit" | "wl" | "br" => true,
             | "matchP" => Self::synth(&node.kids[1]),
@@ -204,7 +206,7 @@ impl Renderer {
             | "ret" => json!({"t":"ret","a":t["a"]}),
             | "lam" => json!({"t":"fn","a":t["a"],"c":t["c"]}),
             | "vlam" => json!({"t":"vfn","a":t["a"],"b":t["b"]}),
-            | "vapp" => t["b"].clone(),
+            | "vapp" | "vlet" => t["b"].clone(),
             | "do" | "app" | "force" | "let" | "fix" | "br" | "matchP" | "match" | "dtor" => t["c"].clone(),
             | "arith" => json!({"t":"ret","a":{"t":"int"}}),
             | "i2s" | "sapp" => json!({"t":"ret","a":{"t":"str"}}),
@@ -312,6 +314,13 @@ impl Renderer {
                 let b = self.term(&node.kids[1], &c2, &t2);
                 wrap(format!("let {x} : {} = {v} in {b}", ty(&t["a"])), &t["c"])
             }
+            | "vlet" => {
+                let v = self.term(&node.kids[0], ctx, tys);
+                let x = self.fresh(ctx, &[&node.kids[1]]);
+                let (c2, t2) = push(ctx, tys, &x, &t["a"]);
+                let b = self.term(&node.kids[1], &c2, &t2);
+                wrap(format!("let {x} : {} = {v} in {b}", ty(&t["a"])), &t["b"])
+            }
             | "fix" => {
                 let x = self.fresh(ctx, &[&node.kids[0]]);
                 let thk = json!({"t":"thk","c":t["c"]});
@@ -407,8 +416,23 @@ impl Renderer {
                     if skip == i + 1 {
                         continue;
                     }
-                    let b = self.term(&node.kids[j], ctx, tys);
-                    out.push_str(&format!(" | .{d} => {b}"));
+                    // lean renderings write the parameters of a function-typed arm as a destructor CLAUSE
+                    // (`| .d x y z => body`: copattern elaboration), full renderings as nested `fn`
+                    let mut params: Vec<String> = Vec::new();
+                    let (mut c2, mut t2) = (ctx.to_vec(), tys.to_vec());
+                    let mut body = &node.kids[j];
+                    if !self.full() {
+                        while s(&body.tok, "k") == "lam" {
+                            let x = self.fresh(&c2, &[&body.kids[0]]);
+                            let (c3, t3) = push(&c2, &t2, &x, &body.tok["a"]);
+                            c2 = c3;
+                            t2 = t3;
+                            params.push(x);
+                            body = &body.kids[0];
+                        }
+                    }
+                    let b = self.term(body, &c2, &t2);
+                    out.push_str(&format!(" | .{d}{} => {b}", params.iter().map(|x| format!(" {x}")).collect::<String>()));
                     j += 1;
                 }
                 out.push_str(" end");
@@ -560,7 +584,7 @@ fn amplify(root: &Node, depth: usize, out: &mut Vec<Node>, rebuild: &dyn Fn(Node
     }
     let binds: Vec<usize> = match k.as_str() {
         | "lam" | "fix" | "vlam" => vec![1],
-        | "do" | "let" => vec![0, 1],
+        | "do" | "let" | "vlet" => vec![0, 1],
         | "matchP" => vec![0, 2],
         | "match" => std::iter::once(0).chain(std::iter::repeat(1)).take(root.kids.len()).collect(),
         | _ => vec![0; root.kids.len()],
@@ -867,7 +891,7 @@ fn split_first(node: &Node, depth: usize) -> Option<(Node, Node, Value)> {
     // binders introduced by this node for each child
     let binds: Vec<usize> = match k.as_str() {
         | "lam" | "fix" | "vlam" => vec![1],
-        | "do" | "let" => vec![0, 1],
+        | "do" | "let" | "vlet" => vec![0, 1],
         | "matchP" => vec![0, 2],
         | "match" => std::iter::once(0).chain(std::iter::repeat(1)).take(node.kids.len()).collect(),
         | _ => vec![0; node.kids.len()],
